@@ -15,14 +15,14 @@ MCNext ==
        \/ \E h \in Handles : TakeReader(r, h)
        \/ OpenReader(r, N + r) \/ ReaderPut(r) \/ ReaderDrop(r) \/ Dec(r)
   \/ \E E \in SUBSET Keys : Clean(E)
-  \/ CloseMgr
+  \/ CloseMark \/ CloseCollect
   \/ \E f \in Files : ReleaseStart(f) \/ \E h \in Handles : RelClose(f, h)
 
 Fairness ==
   /\ \A r \in Reqs : /\ WF_vars(\E k \in Kinds, p \in Paths : Lookup(r, k, p))
                      /\ WF_vars(MissFail(r) \/ CloseT(r, r) \/ \E h \in {r, Nil}, b \in BOOLEAN : Insert(r, r, h, b))
                      /\ WF_vars(OpenReader(r, N + r) \/ Dec(r)) /\ WF_vars(ReaderPut(r)) /\ WF_vars(Dec(r))
-  /\ WF_vars(CloseMgr)
+  /\ WF_vars(CloseMark) /\ WF_vars(CloseCollect)
   /\ \A f \in Files : WF_vars(ReleaseStart(f)) /\ \A h \in Handles : WF_vars(RelClose(f, h))
 
 MCSpec == Init /\ [][MCNext]_vars /\ Fairness
@@ -32,6 +32,6 @@ AllClosed == \A h \in Handles : hst[h] # "open"
 EventuallyAllClosed == <>[]AllClosed
 
 \* the history flags never become true in the design; keep them out of the fingerprint
-MCView == <<cache, pending, closed, readers, fst, big, mainh, pool, marks, nrel, relset, hst,
+MCView == <<cache, pending, closed, collected, readers, fst, big, mainh, pool, marks, nrel, relset, hst,
             ccount, pc, rkey, rfile, rh, held>>
 =============================================================================
